@@ -89,6 +89,21 @@ Fixpoint tlagrange_d (k : nat) (gs : seq (grid (F:=F))) (x : seq F) (ys : seq F)
   | _, [::] => 0
   end.
 
+(* second partial d2/dx_m dx_n of the tensor-product Lagrange interpolant *)
+Fixpoint tlagrange_dd (m n : nat) (gs : seq (grid (F:=F))) (x : seq F) (ys : seq F) : F :=
+  match gs, x with
+  | [::], _ => 0
+  | (_, (xs, _)) :: gs', x0 :: x' =>
+      let ch j := take (gsizes gs') (drop (j * gsizes gs') ys) in
+      match m, n with
+      | 0%N, 0%N => \sum_(j < size xs) ((lbase xs (nth 0 xs j))^`(2)).[x0] * tlagrange gs' x' (ch j)
+      | 0%N, n'.+1 => \sum_(j < size xs) ((lbase xs (nth 0 xs j))^`()).[x0] * tlagrange_d n' gs' x' (ch j)
+      | m'.+1, 0%N => \sum_(j < size xs) ((lbase xs (nth 0 xs j))^`()).[x0] * tlagrange_d m' gs' x' (ch j)
+      | m'.+1, n'.+1 => \sum_(j < size xs) (lbase xs (nth 0 xs j)).[x0] * tlagrange_dd m' n' gs' x' (ch j)
+      end
+  | _, [::] => 0
+  end.
+
 (* affine change of units of one input: nodes a*t+b, tolerance a*tol, same weights *)
 Definition amap (a b : F) (xs : seq F) : seq F := [seq a * t + b | t <- xs].
 Definition gmap (ab : seq (F * F)) (gs : seq (grid (F:=F))) : seq (grid (F:=F)) :=
